@@ -9,3 +9,5 @@ import WebrtcVerif.Drv.C22
 import WebrtcVerif.Drv.C36
 import WebrtcVerif.Props.C40
 import WebrtcVerif.Drv.C40
+import WebrtcVerif.Props.C19
+import WebrtcVerif.Drv.C19
